@@ -521,6 +521,14 @@ func run() int {
 		fmt.Fprintf(os.Stderr, "ENGINE FAULT: zero obligations for %s\n", *prop)
 		exit = 2
 	}
+	if *dump != "" {
+		os.MkdirAll(*dump, 0o755)
+		for _, o := range all {
+			if o.Cover && o.Status != "sat" {
+				os.WriteFile(filepath.Join(*dump, safeName(o.Name)+fmt.Sprintf("_p%d.smt2", o.Path)), []byte(ctxOf[o].Ctx.Script(w.Prelude, o.Assume, nil)), 0o644)
+			}
+		}
+	}
 	for _, v := range vac {
 		fmt.Fprintf(os.Stderr, "VACUITY: %s\n", v)
 		if exit == 0 {
